@@ -11,7 +11,10 @@ package main
 //     elements the pipeline really canonicalises AND on independently computed candidates (root minus each Signature),
 //     digest = crypto hashes, sig_ok = x509.Certificate.CheckSignature, parse_cert = x509.ParseCertificate,
 //     reparse = etree;
-//   - the model is evaluated in Coq on the same element and compared stage by stage (dsig_obs);
+//   - the model is evaluated in Coq on the same element and compared stage by stage (dsig_obs), with the canonicalisers
+//     modelled (set "validate", Canon.dsig_obs_model) and with canonicalisers AND re-parse modelled (set "validate2",
+//     DsigReader.dsig_obs_model2: the reparse table is no longer consulted, its entries are recomputed by the reader model
+//     XmlTok.read_tree and compared by tree equality);
 //   - the spec oracle is the generator's LEDGER of what each key signed and which bytes each signed digest stands for:
 //     Validate must never return a tree that no store key valid at the clock vouched for.
 
@@ -888,6 +891,13 @@ func dgRunCase(c *Ctx, cs *CaseSet, k *dgCase) {
 	in := "(" + t.term() + ", " + L(storeT) + ", " + Instant(k.now) + ", " + nodeTerm(k.el) + ", " + dgOptNode(res) + ", " + dgOptNode(sh.mutated) + ")"
 	sort.Strings(k.labels)
 	cs.Add(in, obs, strings.Join(k.labels, ",")+" => "+class)
+	if dgReaderSet != nil {
+		// same input, same expected stages; no entry of the canon table and none of the reparse table may differ from the model;
+		// the element (delivered by etree) must satisfy the premise of the round-trip theorems
+		obs2 := VL([]string{VL([]string{out, found, dgOptBytes(sh.haveSI, sh.si), dgOptBytes(sh.haveRef, sh.ref), VB(true)}), VL(nil), VL(nil), VB(true)})
+		dgReaderSet.Add(in, obs2, strings.Join(k.labels, ",")+" => "+class)
+		c.Rep.Distribution["reparse:table-entries-recomputed-by-model"] += len(t.reparse)
+	}
 	c.Count("dsig:outcome=" + strings.SplitN(class, ":", 2)[0])
 	for _, l := range k.labels {
 		c.Count("dsig:" + l)
